@@ -17,10 +17,12 @@ import oracles
 CONFIG = {
     "id": "C13",
     "rule": ("all sequences of length <= 4 (quick) / <= 5 (thorough) over 4 values per kind (ints, floats, words, numeric "
-             "strings) plus null, under max/min/unique/distinct x inversion x parameter absent/present; all "
-             "Array-of-Hashes and hash-of-hashes of <= 4 records whose attribute is one of {1, 2, 3, null, absent} "
-             "(3 for unique/distinct) under the same keywords and has_child x inversion x attribute named/missing/"
-             "other; has_child over hashes, lists, nulls, scalars, anchored children (&name form); parent(n) and "
+             "strings, words with shared prefixes and case differences, numeric-looking text such as '10' and '9', ints "
+             "mixed with floats, values equal across types 1/1.0/true/'1') plus null, under max/min/unique/distinct x "
+             "inversion x parameter absent/present; all Array-of-Hashes and hash-of-hashes of <= 3 (quick) / <= 4 records "
+             "whose attribute is drawn from {1, 2, 3, null, absent}, {abc, abd, b, null, absent}, {1.5, 2.5, 2.50, null, "
+             "absent} or {1, 1.0, true, '10', Abc} under the same keywords and has_child x inversion x attribute "
+             "named/missing/other; has_child over hashes, lists, nulls, scalars, anchored children (&name form); parent(n) and "
              "name() at every node of nested documents (reached by key/index paths and by ** and * traversals) for "
              "n in -1..depth+1, non-integer and surplus parameters; mixed-kind and container members, unhashable "
              "members, malformed parameter lists; seeded random collections.  non-trivial = the collection has >= 2 "
@@ -492,8 +494,16 @@ NUMTEXT = ["'1'", "'2'", "'10'", "'2.0'"]
 NESTED = "{a: {b: {c: 1, d: [5, {e: 6}]}, f: 2}, l: [1, [2, 3], {g: 4}], n: ~, &k anchored: &v val}"
 
 
+# text with shared prefixes and case differences; numeric-looking text (compared by its typed reading: '10' > '9');
+# ints mixed with floats (ordering numeric, equality textual); values equal across types (1 == 1.0 == true)
+WORDS2 = ["ab", "abc", "Abc", "aB"]
+NUMTEXT2 = ["'10'", "'9'", "'09'", "'1e1'"]
+MIXNUM = ["1", "1.0", "2", "2.5"]
+CROSS = ["1", "1.0", "true", "'1'"]
+
+
 def seq_cases(maxlen):
-    for kind in (INTS, FLOATS, WORDS, NUMTEXT):
+    for kind in (INTS, FLOATS, WORDS, NUMTEXT, WORDS2, NUMTEXT2, MIXNUM, CROSS):
         pool = kind + ["~"]
         for n in range(0, maxlen + 1):
             for tup in itertools.product(pool, repeat=n):
@@ -510,10 +520,12 @@ def seq_cases(maxlen):
 
 ATTRS = ["p: 1", "p: 2", "p: 3", "p: ~", "q: 1"]
 ATTRS_S = ["p: abc", "p: abd", "p: ~", "q: 1", "p: b"]
+ATTRS_F = ["p: 1.5", "p: 2.5", "p: 2.50", "p: ~", "q: 1"]
+ATTRS_X = ["p: 1", "p: 1.0", "p: true", "p: '10'", "p: Abc"]
 
 
 def rec_cases(maxlen):
-    for pool in (ATTRS, ATTRS_S):
+    for pool in (ATTRS, ATTRS_S, ATTRS_F, ATTRS_X):
         for n in range(0, maxlen + 1):
             for tup in itertools.product(pool, repeat=n):
                 aoh = "[%s]" % ", ".join("{%s, id: %d}" % (a, i) for i, a in enumerate(tup))
@@ -583,7 +595,8 @@ def misc_cases():
 
 def rand_cases(seed, n):
     rng = random.Random(seed + 13)
-    pools = [INTS + ["7", "-3", "1000000000000000000000"], FLOATS + ["1e3", "0.1"], WORDS + ["a b", "Abc"],
+    pools = [INTS + ["7", "-3", "1000000000000000000000"], FLOATS + ["1e3", "0.1"], WORDS + WORDS2 + ["a b", "abcd", "ABC"],
+             NUMTEXT + NUMTEXT2 + ["'-1'", "'1_0'"], INTS + FLOATS + ["1.0", "2.0", "10.0"],
              INTS + FLOATS + WORDS + NUMTEXT + ["~", "true", "[1]", "{a: 1}"]]
     for i in range(n):
         pool = rng.choice(pools)
